@@ -9,6 +9,7 @@ import (
 	"fmt"
 	"math"
 	"os"
+	"runtime/debug"
 	"sort"
 	"strings"
 	"time"
@@ -29,7 +30,9 @@ func init() { scenarios["C18"] = c18 }
 //     overwritten / deleted; a deleted or never-created user is not returned; an existing one is;
 //   - a request answered >= 400 leaves the raw database unchanged;
 //   - close/reopen leaves the raw database unchanged;
-//   - nothing panics (a recovered panic counts).
+//   - nothing panics (a recovered panic counts);
+//   - the value a list returned (UserManager.ListAllUsers, kept by the caller: "db.hold") still reads the same after
+//     the later operations of the script ("db.reread" after every later write / reopen and at the end).
 
 var c18Names = []string{"SessionsCap", "UpRate", "DownRate", "UpCredit", "DownCredit", "ExpiryTime"}
 var c18Short = []string{"cap", "up", "down", "upc", "downc", "exp"}
@@ -54,6 +57,15 @@ type c18Rig struct {
 	script []string           // "op => impl"
 	hits   *[]c18Hit
 	tag    string
+	held   []*c18Held
+}
+
+// c18Held is a list result the caller keeps: the very value ListAllUsers returned, and what it said when returned
+type c18Held struct {
+	infos []um.UserInfo
+	uids  [][]byte // deep copies taken at return time
+	quiet bool     // no write transaction / close since it was returned
+	done  bool     // already reported as changed
 }
 
 func (g *c18Rig) open() {
@@ -213,6 +225,7 @@ func (g *c18Rig) post(urlKind string, urlUID []byte, body *c18Body, why string) 
 		return
 	}
 	g.T(op, fmt.Sprint(st))
+	g.wrote(op)
 	after := g.dump()
 	if st >= 400 && after != before {
 		g.hit("C18 rejected-request-changed-state "+why, map[string]any{"op": op, "status": st, "json_body": string(raw),
@@ -348,6 +361,101 @@ func (g *c18Rig) list() {
 	}
 }
 
+// hold: UserManager.ListAllUsers called directly (the admin handler and any other caller use the returned value
+// after the read transaction has ended); the returned value is kept and looked at again later
+func (g *c18Rig) hold() {
+	op := "db.hold"
+	var us []um.UserInfo
+	var err error
+	var pan string
+	func() {
+		defer func() {
+			if r := recover(); r != nil {
+				pan = fmt.Sprint(r)
+			}
+		}()
+		us, err = g.db.Manager().ListAllUsers()
+	}()
+	if pan != "" {
+		g.T(op, g.panicked(op, "ListAllUsers", pan))
+		return
+	}
+	if err != nil {
+		g.T(op, "err:"+err.Error())
+		return
+	}
+	h := &c18Held{infos: us, quiet: true}
+	items := make([]string, 0, len(us))
+	for _, u := range us {
+		v, _ := c18InfoVals(u)
+		h.uids = append(h.uids, append([]byte(nil), u.UID...))
+		items = append(items, fmt.Sprintf("%s:%d,%d,%d,%d,%d,%d", hx(u.UID), v[0], v[1], v[2], v[3], v[4], v[5]))
+		g.checkRead(op, hx(u.UID), u)
+	}
+	sort.Strings(items)
+	g.T(op, "users ["+strings.Join(items, ";")+"]")
+	g.held = append(g.held, h)
+}
+
+// c18Peek copies a byte slice that may point into memory that has been unmapped since (a fault becomes a panic here)
+func c18Peek(b []byte) (out []byte, fault string) {
+	old := debug.SetPanicOnFault(true)
+	defer debug.SetPanicOnFault(old)
+	defer func() {
+		if r := recover(); r != nil {
+			out, fault = nil, fmt.Sprint(r)
+		}
+	}()
+	out = append([]byte{}, b...)
+	return
+}
+
+// wrote: a write transaction may have committed / the file was closed: look at every held list result again
+func (g *c18Rig) wrote(after string) {
+	for _, h := range g.held {
+		h.quiet = false
+	}
+	g.reread(after)
+}
+
+func (g *c18Rig) reread(after string) {
+	for k, h := range g.held {
+		if h.done {
+			continue
+		}
+		var items, was, now []string
+		changed := false
+		for i, u := range h.infos {
+			seen, fault := c18Peek(u.UID)
+			was = append(was, hx(h.uids[i]))
+			if fault != "" {
+				items = append(items, hx(h.uids[i])+":!")
+				now = append(now, "<fault: "+fault+">")
+				changed = true
+				continue
+			}
+			items = append(items, hx(h.uids[i])+":"+hx(seen))
+			now = append(now, hx(seen))
+			if !bytes.Equal(seen, h.uids[i]) {
+				changed = true
+			}
+		}
+		arg := "-"
+		if len(items) > 0 {
+			arg = strings.Join(items, ",")
+		}
+		op := fmt.Sprintf("db.reread k=%d quiet=%s items=%s", k, c20b(h.quiet), arg)
+		if changed {
+			g.T(op, "changed")
+			h.done = true
+			g.hit("C18 list-result-changed-after-later-operations", map[string]any{"op": op, "after": after,
+				"uids_when_ListAllUsers_returned": was, "uids_in_the_same_value_now": now})
+		} else {
+			g.T(op, "same")
+		}
+	}
+}
+
 func (g *c18Rig) del(urlKind string, uid []byte) {
 	op := "db.del url="
 	before := g.dump()
@@ -369,6 +477,7 @@ func (g *c18Rig) del(urlKind string, uid []byte) {
 		return
 	}
 	g.T(op, fmt.Sprint(st))
+	g.wrote(op)
 	after := g.dump()
 	if st >= 400 && after != before {
 		g.hit("C18 rejected-request-changed-state delete", map[string]any{"op": op, "status": st, "db_before": before, "db_after": after})
@@ -472,6 +581,7 @@ func (g *c18Rig) upload(ups []c18Upd, now int64) {
 		out = "resps [" + strings.Join(rs, ",") + "]"
 	}()
 	g.T(op, out)
+	g.wrote(op)
 	// usage accounting is C16's subject: the reference map just stops asserting the two credits of those users
 	for _, u := range ups {
 		if r := g.ref[hx(u.uid)]; r != nil {
@@ -497,6 +607,7 @@ func (g *c18Rig) reopen() {
 	}
 	g.open()
 	g.T("db.reopen", "ok")
+	g.wrote("db.reopen")
 	if after := g.dump(); after != before {
 		g.hit("C18 reopen-changed-state", map[string]any{"db_before": before, "db_after": after})
 	}
@@ -570,6 +681,7 @@ func (g *c18Rig) probeAll(uids [][]byte) {
 		g.getUser(uid, now)
 	}
 	g.list()
+	g.hold()
 	var ups []c18Upd
 	for _, uid := range uids {
 		ups = append(ups, c18Upd{uid, int64(r.intn(50)), int64(r.intn(50))})
@@ -587,6 +699,7 @@ func c18NewRig(c *ctx, hits *[]c18Hit, idx int, tag string) *c18Rig {
 }
 
 func (g *c18Rig) finish() {
+	g.reread("end of script")
 	g.T("db.dump", g.dump())
 	g.db.Close()
 	os.Remove(g.path)
@@ -641,6 +754,18 @@ func c18(c *ctx) {
 		g.getUser(uidA, 50)
 		g.post("ok", uidA, &c18Body{uid: uidA, fields: [6]*int64{nil, c18p64(math.MaxInt64), c18p64(1)}}, "valid")
 		g.getUser(uidA, 50)
+		g.finish()
+		// Props/C18.lean `pinned_list_result_unstable`: a list result is kept, two unrelated writes follow
+		g = c18NewRig(c, &hits, idx, "witness list result held across later writes")
+		idx++
+		full := [6]*int64{c18p64(2), c18p64(10), c18p64(10), c18p64(100), c18p64(100), c18p64(2000000000)}
+		g.post("ok", uidA, &c18Body{uid: uidA, fields: full}, "valid")
+		g.hold()
+		g.post("ok", uidB, &c18Body{uid: uidB, fields: full}, "valid")
+		g.post("ok", uidC, &c18Body{uid: uidC, fields: full}, "valid")
+		g.hold()
+		g.del("ok", uidB)
+		g.reopen()
 		g.finish()
 		o.case_("witnesses", true)
 	}
@@ -717,9 +842,12 @@ func c18(c *ctx) {
 			case kind < 63:
 				g.get([]string{"bad", "empty"}[r.intn(2)], nil)
 				kinds["get-badurl"]++
-			case kind < 69:
+			case kind < 66:
 				g.list()
 				kinds["list"]++
+			case kind < 69:
+				g.hold()
+				kinds["list-held"]++
 			case kind < 77:
 				g.del("ok", uid)
 				kinds["delete"]++
@@ -788,8 +916,10 @@ func c18(c *ctx) {
 			return 1
 		case strings.HasPrefix(sig, "C18 panic-nonpositive-rate"):
 			return 2
+		case strings.HasPrefix(sig, "C18 list-result-changed"):
+			return 3
 		}
-		return 3
+		return 4
 	}
 	class := func(sig string) string {
 		f := strings.Fields(sig)
